@@ -72,9 +72,11 @@ def member(e, cp):
     if k == "lit":
         return cp == ord(e[1])
     if k == "ci":
+        c = ord(e[1])
+        if c > 0x7F:
+            return True if cp == c else None  # a non-ASCII literal: only "matches itself" is required
         if cp > 0x7F:
             return None  # the statement covers ASCII input only
-        c = ord(e[1])
         return cp == c or (0x41 <= c <= 0x5A and cp == c + 32) or (0x61 <= c <= 0x7A and cp == c - 32)
     if k == "alt":
         rs = [member(x, cp) for x in e[1]]
@@ -334,6 +336,12 @@ def run(tier: str) -> int:
     for gi in range(0, len(adj), 12):
         for lo, hi in ADJ_WINDOWS:
             payloads.append((adj[gi:gi + 12], lo, hi, set(props)))
+    # case-insensitive literals that Unicode case folding would identify (k / Kelvin sign, s / long s, i / dotted I, e-acute pair):
+    # built one after the other in ONE process, in both orders, so that anything shared between literals shows
+    ci_hist = [("ci", c) for c in ("\u212a", "k", "K", "\u017f", "s", "S", "\u0130", "i", "\u00e9", "\u00c9", "\u00df")]
+    for order in (ci_hist, ci_hist[::-1]):
+        for lo, hi in ((0x00, 0x180), (0x2100, 0x2140)):
+            payloads.append((order, lo, hi, set(props)))
     results = common.parallel_map(_sweep, payloads, fresh=True, order_seed=common.seed())
     forms = (6,) if tier == "quick" else (2, 3, 4, 5, 6)
     esc_payloads = []
@@ -377,6 +385,8 @@ def run(tier: str) -> int:
         "rule": "for every expression X of the family, a one-rule grammar r = { X } is built in all four modes and parse('r', chr(cp)) is called for EVERY code point U+0000..U+10FFFF (surrogates included); "
                 "membership is computed from the definition with integer comparisons (ranges inclusive and case sensitive, literals exact, choices = union, ASCII_*/NEWLINE/ANY from pest's book; case-insensitive literals judged on ASCII input only); "
                 f"adjacency family: {len(adj)} choices of a base range with a literal or a second range starting/ending within 2 of either end (both orders, and literal|range|literal), judged on the windows {[(hex(a), hex(b)) for a, b in ADJ_WINDOWS]} only; "
+                "case-folding family: ^\"x\" for x in {Kelvin sign, k, K, long s, s, S, dotted capital I, i, e-acute, E-acute, sharp s} built in one process in this order and in the reverse order, judged on U+0000-U+017F and U+2100-U+213F "
+                "(an ASCII letter literal accepts exactly its two ASCII spellings of ASCII input; a non-ASCII literal must at least accept itself); "
                 "built-in Unicode property rules must give the same answer in all four modes. Escapes: every \\xHH (both digit cases) and every \\u{H..} value in the stated digit-count forms, in string and character literals, "
                 "must match exactly the intended character (and not its neighbour); every string literal made of 1-3 pieces from {\\n \\r \\t \\\\ \\\" \\' \\0 n r t 0 x u} must decode piecewise. distinct_nontrivial = accepted (expression, code point) points in mode IU",
         "samples": [{"expr": text_of(e)} for e in common.pick_samples(all_exprs, 5)],
